@@ -216,7 +216,7 @@ class Spec:
         lo, hi = I.cp_range.get(cp.get_id(), (0, 0x10FFFF))
         return T_.width_term(cp, lo, hi, floor0=True)
 
-    def strip_ansi(self, I, chars):
+    def strip_ansi(self, I, chars, sym_not_esc=False):
         """remove CSI (ESC [ ... final @..~) and OSC (ESC ] ... BEL | ESC \\) sequences per the property's grammar.
         Branches (via I.branch) on symbolic characters.  An unterminated sequence extends to the end.
         ESC followed by anything else removes the ESC and that one character (the implementation's behaviour for
@@ -228,7 +228,7 @@ class Spec:
         n = len(chars)
         while i < n:
             cp = chars[i][0]
-            if I.branch(v_eq(cp, ESC)):
+            if (not (sym_not_esc and is_sym(cp))) and I.branch(v_eq(cp, ESC)):
                 i += 1
                 if i >= n:
                     break
@@ -254,8 +254,8 @@ class Spec:
             i += 1
         return out, mask
 
-    def display_width(self, I, chars, ansi=True):
-        cs = self.strip_ansi(I, chars)[0] if ansi else chars
+    def display_width(self, I, chars, ansi=True, sym_not_esc=False):
+        cs = self.strip_ansi(I, chars, sym_not_esc)[0] if ansi else chars
         return v_sum([self.char_width(I, c) for c, _ in cs])
 
 
